@@ -239,7 +239,8 @@ func c02Excluded(tc l4Case, f *syntax.File, sh *shape) string {
 	// of the header comment and the comment is flushed before `do`/`then` (which moves to the next
 	// line); in the output clause and comment share a line and the second pass prints
 	// `for i; do # c`.  Over-approximated: SingleLine ∧ a comment between the clause keyword and
-	// its `do`/`then` ∧ the clause is not a top-level statement of the file.
+	// its `do`/`then` ∧ (the clause is not a top-level statement of the file ∨ the comment is on a
+	// later line than the keyword).
 	if o.Single && hasComments(f) {
 		top := map[syntax.Node]bool{}
 		for _, st := range f.Stmts {
@@ -247,31 +248,34 @@ func c02Excluded(tc l4Case, f *syntax.File, sh *shape) string {
 				top[st.Cmd] = true
 			}
 		}
-		type span struct{ from, to uint }
+		// nested: the clause is joined to its opener's line; otherwise the comment has to sit on a
+		// later line than the keyword (a newline inside the header was dropped)
+		type span struct {
+			from, to, line uint
+			nested         bool
+		}
 		var spans []span
-		var coms []uint
+		var coms []syntax.Pos
 		syntax.Walk(f, func(n syntax.Node) bool {
 			switch x := n.(type) {
 			case *syntax.Comment:
-				coms = append(coms, x.Pos().Offset())
+				coms = append(coms, x.Pos())
 			case *syntax.ForClause:
-				if !x.Select && !top[n] {
-					spans = append(spans, span{x.ForPos.Offset(), x.DoPos.Offset()})
+				if !x.Select {
+					spans = append(spans, span{x.ForPos.Offset(), x.DoPos.Offset(), x.ForPos.Line(), !top[n]})
 				}
 			case *syntax.WhileClause:
-				if !top[n] {
-					spans = append(spans, span{x.WhilePos.Offset(), x.DoPos.Offset()})
-				}
+				spans = append(spans, span{x.WhilePos.Offset(), x.DoPos.Offset(), x.WhilePos.Line(), !top[n]})
 			case *syntax.IfClause:
-				if !top[n] && x.ThenPos.IsValid() {
-					spans = append(spans, span{x.Position.Offset(), x.ThenPos.Offset()})
+				if x.ThenPos.IsValid() {
+					spans = append(spans, span{x.Position.Offset(), x.ThenPos.Offset(), x.Position.Line(), !top[n]})
 				}
 			}
 			return true
 		})
 		for _, cm := range coms {
 			for _, sp := range spans {
-				if cm > sp.from && cm < sp.to {
+				if cm.Offset() > sp.from && cm.Offset() < sp.to && (sp.nested || cm.Line() > sp.line) {
 					return "C02-single-loop-header-comment"
 				}
 			}
